@@ -24,6 +24,32 @@ def run_scenario(sc):
     client = run_impl._imp()
     mc = client.ModelClient() if sc.get("shared_client", True) else None
     last = None
+    frame = None
+    if sc.get("shared_base_frame"):
+        # a caller that loads the baseline once and hands the very same DataFrame object to every call
+        frame = run_impl.frames(sc["cases"][-1])[0]
+    if sc.get("local_cache"):
+        # the documented cache: a call with "data" in save_output writes the baseline next to the working directory, later calls that
+        # are not given a frame read it from there
+        import copy
+        import os
+        import shutil
+        import tempfile
+
+        wd = tempfile.mkdtemp(prefix="cwd_", dir=os.path.dirname(os.path.abspath(sys.argv[1])))
+        cwd = os.getcwd()
+        os.chdir(wd)
+        try:
+            first = copy.deepcopy(sc["cases"][-1])
+            first["params"]["save_output"] = ["data"]
+            r0 = run_impl.run_case(first, client_obj=client.ModelClient())
+            second = copy.deepcopy(sc["cases"][-1])
+            second["params"]["save_output"] = []
+            last = run_impl.run_case(second, client_obj=client.ModelClient(), want_client=True, preprocessed_none=True) if r0["ok"] else dict(r0, client=None)
+        finally:
+            os.chdir(cwd)
+            shutil.rmtree(wd, ignore_errors=True)
+        sc = dict(sc, cases=[])
     for k, case in enumerate(sc["cases"]):
         if sc.get("perturb_global_rng"):
             np.random.seed(1000 + 17 * k + sc.get("rng_salt", 0))
@@ -31,7 +57,7 @@ def run_scenario(sc):
 
             _r.seed(5 + k + sc.get("rng_salt", 0))
         obj = mc if mc is not None else client.ModelClient()
-        r = run_impl.run_case(case, client_obj=obj, want_client=True)
+        r = run_impl.run_case(case, client_obj=obj, want_client=True, base_frame=frame)
         last = r
     res = {"ok": last["ok"], "exc": last["exc"]}
     if last["ok"]:
